@@ -68,12 +68,17 @@ def generate(rng, tier):
         ops.append(scen.cmd("create", "@R", "-h", rng.choice(["md5", "xxh64"])))
         if rng.random() < 0.5:
             ops += [{"op": "advance", "us": 2_000_000}, scen.cmd("create", "@R", "-h", "md5")]
+    concurrent = None
+    if rng.random() < 0.1:
+        # a chained manifest is tampered with WHILE a create is running (after it loaded and checked the history, while
+        # it hashes media): the running command may finish, every command after it refuses
+        concurrent = {"byte": rng.randrange(1 << 16), "bit": rng.randrange(8), "which": rng.randrange(8)}
     if rng.random() < 0.15:
         # the last run on the tree was interrupted inside a write: its temporary file is still lying in an ascmhl folder
         # (the history itself is intact); commands that refuse a tampered history must leave that file alone as well
         ops.append(dict(scen.cmd("create", "@R", "-h", "md5"), kill={"at": rng.choice([3, 4, 5, 7, 9, 12, 16]), "mode": "after"}))
     return {"world": env, "ops": twin_ops + ops, "triples": "all" if tier == "thorough" else "sample",
-            "triple_seed": rng.getrandbits(32)}
+            "triple_seed": rng.getrandbits(32), "concurrent": concurrent}
 
 
 def _positions(data, seed):
@@ -168,6 +173,35 @@ def execute(sc, ctx):
             targets.append((hr, os.path.join(hr, "ascmhl", name), "manifest", posn))
         targets.append((hr, os.path.join(hr, "ascmhl", "ascmhl_chain.xml"), "chain", "-"))
         targets.append((hr, os.path.join(hr, "ascmhl"), "folder", "-"))
+    cc = sc.get("concurrent")
+    root_manifests = [t for t in targets if t[0] == w.root and t[2] == "manifest"]
+    if cc and root_manifests and os.path.isfile(os.path.join(w.root, "top.bin")):
+        victim = root_manifests[cc["which"] % len(root_manifests)][1]
+        before = observe.read_bytes(victim)
+        r0 = w.run_cmd(["create", w.root, "-h", "md5"], hooks={"concurrent": {"contains": "top.bin", "nth": 1, "path": victim,
+                                                                          "byte": cc["byte"], "bit": cc["bit"]}})
+        ctx.evaluations += 1
+        if r0.extra.get("concurrent_fired") and observe.read_bytes(victim) != before:
+            ctx.fault("tamper_during_running_create")
+            ctx.nontrivial = True
+            snap = core.snapshot(w.sandbox)
+            for c in COMMANDS:
+                top_file = os.path.join(w.root, "top.bin")
+                argv = _argv(c, w.root, w, top_file)
+                res = w.run_cmd(argv)
+                ctx.evaluations += 1
+                desc = f"{os.path.relpath(victim, w.base)} flipped while create was hashing media (that run: {r0.brief()}); then {argv[0]} {argv[2:]} -> {res.brief()}"
+                if res.outcome != ("exit", 31):
+                    ctx.violate({"kind": "wrong-outcome", "cmd": c, "cause": f"{res.brief()}-instead-of-31", "edit": "concurrent-flip", "depth": 0},
+                                desc + " " + res.stderr[-200:])
+                    return
+                a, rm, ch = core.snapshot_diff(snap, core.snapshot(w.sandbox))
+                if a or rm or ch or res.effects:
+                    ctx.violate({"kind": "refusing-command-wrote", "cmd": c, "cause": "snapshot", "edit": "concurrent-flip"}, desc + f" {a[:2]} {rm[:2]} {ch[:2]}")
+                    return
+            ctx.probe("manifest_tampered_during_a_running_create")
+            ctx.absorb_world(w)
+            return
     triples = []
     for hr, path, kind, posn in targets:
         # command roots: any history root that is an ancestor-or-self of the damaged history
@@ -284,5 +318,7 @@ def execute(sc, ctx):
 def shrink_candidates(sc):
     for ops in ddmin_list(sc["ops"], 1):
         yield dict(sc, ops=ops)
+    if sc.get("concurrent"):
+        yield dict(sc, concurrent=None)
     for tree in gen.shrink_tree_candidates(sc["world"]["tree"], {"top.bin"}):
         yield dict(sc, world=dict(sc["world"], tree=tree))
